@@ -858,7 +858,71 @@ func c14E2EScenarios(tier string) []*world.Scenario {
 		out = append(out, c14E2E("node-added", base, added, key, AddrD, write, b))
 	}
 	// reads after the move may go to B or its replica b1: judge writes only for the exact node, reads for the set
+	out = append(out, c14DeadNode(tier))
 	return out
+}
+
+// c14DeadNode: one node of the adopted table is unreachable (every dial refused) for several ticker rounds before the
+// live nodes start to report the failover. The probe target is chosen per round (rand.Intn in the pinned code): over all
+// outcomes of those choices after the change, the new topology must be adopted in at least one execution, i.e. the probe
+// is not stuck on the unreachable node for good. (Cross-execution oracle: which node a round probes is the proxy's
+// business; that no choice sequence at all reaches a live node again is a violation.)
+func c14DeadNode(tier string) *world.Scenario {
+	before := []world.NodeSpec{
+		{Name: "aaa", Addr: AddrA, Slots: [][2]int{{0, 5460}}},
+		{Name: "bbb", Addr: AddrB, Slots: [][2]int{{5461, 10922}}},
+		{Name: "ccc", Addr: AddrC, Slots: [][2]int{{10923, 16383}}},
+		{Name: "a1", Addr: AddrA1, Master: "aaa"},
+	}
+	after := []world.NodeSpec{
+		{Name: "aaa", Addr: AddrA, Slots: [][2]int{{0, 5460}}, Flags: "fail", Link: "disconnected"},
+		{Name: "bbb", Addr: AddrB, Slots: [][2]int{{5461, 10922}}},
+		{Name: "ccc", Addr: AddrC, Slots: [][2]int{{10923, 16383}}},
+		{Name: "a1", Addr: AddrA1, Slots: [][2]int{{0, 5460}}},
+	}
+	pre, post := 4, 3
+	if tier == "thorough" {
+		post = 4
+	}
+	var ticks []time.Duration
+	for i := 0; i < pre+post; i++ {
+		ticks = append(ticks, 1100*time.Millisecond)
+	}
+	sc := &world.Scenario{Nodes: before, Bound: 0, Family: "dead-node", Horizon: 900, RefreshLoop: true,
+		RefuseDial: map[string]int{AddrA: -1}, RetryTimeoutMs: 10,
+		Faults: []world.Fault{{Kind: "nodes-change", Nodes: after, AfterTicks: pre}}, Ticks: ticks,
+		IntnChoice: true, FreeKinds: []string{"intn"}}
+	sc.IntnGate = func(w *world.World) bool { return w.FaultsDone() }
+	sc.TickGate = func(w *world.World) bool { return w.ProbesIdle() && (w.Ticks < pre || w.FaultsDone()) }
+	key := keysA[0]
+	r0, r1 := SetReq(keysB[0], "v"), SetReq(key, "v")
+	cs := ClientOf([]Req{r0, r1}, false)
+	cs.Chunks[1].WaitTicks, cs.Chunks[1].WaitReplies = pre+post, 1
+	cs.Chunks[1].Gate = func(w *world.World) bool { return w.ProbesIdle() }
+	cs.Expect[1] = nil
+	sc.Clients = []world.ClientSpec{cs}
+	sc.Name = fmt.Sprintf("C14/e2e/dead-node/%d+%d-rounds", pre, post)
+	sc.Check = func(w *world.World) []world.Violation {
+		if w.RefreshDead {
+			return []world.Violation{{Sig: "refresh-loop-exits-on:valid-text", Msg: "the refresh goroutine terminated during normal probing"}}
+		}
+		return CheckStreams(w, StreamOpts{})
+	}
+	sc.Observe = func(w *world.World) string {
+		for _, rec := range w.DataCmds("") {
+			if hasKey(rec.Args, key) && rec.Addr == AddrA1 {
+				return "adopted"
+			}
+		}
+		return "stale"
+	}
+	sc.Final = func(obs map[string]int) []world.Violation {
+		if obs["adopted"] == 0 {
+			return []world.Violation{{Sig: "probe-stuck-on-unreachable-node", Msg: fmt.Sprintf("node %s of the adopted table is unreachable; %d ticker rounds after the live nodes started to report the failover, under EVERY outcome of the probe-target choices (%d executions) the proxy still routes slot %d by the old table: no live node is probed any more", AddrA, post, obs["stale"], world.SpecSlot([]byte(key)))}}
+		}
+		return nil
+	}
+	return sc
 }
 
 func parseInts(s string) []int {
@@ -886,7 +950,7 @@ func init() {
 		return fmt.Sprintf("history %s\nverdict: %s %s", c18Describe(h), sig, msg), sig != ""
 	}
 	register(&Check{ID: "C14", Level: "model_checking",
-		Rule: "breadth-first search over histories of probe replies pushed through the REAL refresh goroutine (loopClusterNodes) and the real ticker: alphabet of 19 messages = 11 valid texts (base, failover with failed master, slot range moved, range split with migration markers, node added, replica removed, replica re-parented, replica disconnected, handshake/noaddr/failed extra nodes, new replicas whose INFO says loading / link down / dial error / ok, unclaimed range) + 8 unusable replies (nil bulk, two error replies, status, oversize > 163840, two usable nodes, 7-column lines, garbage text); depth 3 (thorough 4) with de-duplication on the canonical dump of the real refresh state; additionally ~100 generated single texts (one node line varied over 10 flag combinations x 2 link states x 5 slot-range shapes incl. migration markers and a master without slots, blank lines, missing cluster port, address without host) as histories [text], [base,text], [text,base]; an end-to-end family runs the whole path ticker -> probe -> reply -> channel -> real refresh goroutine -> ticker with client traffic (time advances only when the network is idle); a barrier message makes 'all earlier replies processed' deterministic; oracle: after two ticker rounds of virtual time the slot->(master, replica set) map for ALL 16384 slots and the pool set/roles equal the reference built from the LAST VALID text, and the goroutine is still alive; states = distinct real refresh states reached; transitions = messages delivered",
+		Rule: "breadth-first search over histories of probe replies pushed through the REAL refresh goroutine (loopClusterNodes) and the real ticker: alphabet of 19 messages = 11 valid texts (base, failover with failed master, slot range moved, range split with migration markers, node added, replica removed, replica re-parented, replica disconnected, handshake/noaddr/failed extra nodes, new replicas whose INFO says loading / link down / dial error / ok, unclaimed range) + 8 unusable replies (nil bulk, two error replies, status, oversize > 163840, two usable nodes, 7-column lines, garbage text); depth 3 (thorough 4) with de-duplication on the canonical dump of the real refresh state; additionally ~100 generated single texts (one node line varied over 10 flag combinations x 2 link states x 5 slot-range shapes incl. migration markers and a master without slots, blank lines, missing cluster port, address without host) as histories [text], [base,text], [text,base]; an end-to-end family runs the whole path ticker -> probe -> reply -> channel -> real refresh goroutine -> ticker with client traffic (time advances only when the network is idle), including a table node that is unreachable for four rounds before the failover is reported, under every outcome of the probe-target choice afterwards (cross-execution oracle: some outcome adopts the new table); a barrier message makes 'all earlier replies processed' deterministic; oracle: after two ticker rounds of virtual time the slot->(master, replica set) map for ALL 16384 slots and the pool set/roles equal the reference built from the LAST VALID text, and the goroutine is still alive; states = distinct real refresh states reached; transitions = messages delivered",
 		Seq: c14Seq, Scenarios: c14E2EScenarios, BudgetQuick: 100, BudgetThorough: 1500,
 		Assumptions: []string{"'within a few seconds' = within two ticker rounds of virtual time", "the INFO probe of newly discovered nodes is answered by a stub; the health monitor is not run", "memory-model races between the refresh goroutine and the loop are outside the technique (the barrier orders them)"}})
 	register(&Check{ID: "C18", Level: "model_checking",
